@@ -549,12 +549,23 @@ func c15StartWaitStream(c *vh.Ctx, dir string) func() *c15WaitStream {
 	t0 := time.Now()
 	go func() {
 		defer close(done)
+		var misses int32 // runs that missed their bound outside the recorded G15-1 class
 		c15Pool(len(cases), 12, func(i int) {
 			wc := cases[i]
 			wc.BoundS = bound.Seconds()
 			st := c15MakeStdin(wc.Stdin) // only for Kind / IsFile
 			st.cleanup()
-			ws.outs[i] = c15WaitOut{wc: wc, st: st, r: c15RunWait(wc, bound), idx: i}
+			if atomic.LoadInt32(&misses) >= 16 {
+				// enough witnesses for the retry pass to decide between load and a systematic failure; each further miss would
+				// cost its bound plus the release and kill delays (seeded C15-s2 made every wait miss)
+				ws.outs[i] = c15WaitOut{wc: wc, st: st, r: c15WaitRes{c15Res: c15Res{Skipped: true}}, idx: i}
+				return
+			}
+			r := c15RunWait(wc, bound)
+			if (r.Released || r.Hung) && !c15IsG151(wc, st, r) {
+				atomic.AddInt32(&misses, 1)
+			}
+			ws.outs[i] = c15WaitOut{wc: wc, st: st, r: r, idx: i}
 		})
 		ws.leftovers = c15KillLeftovers()
 		ws.wallWait = time.Since(t0).Seconds()
@@ -568,14 +579,25 @@ func c15StartWaitStream(c *vh.Ctx, dir string) func() *c15WaitStream {
 // process runs its CPU-bound streams at the same time): once more, when nothing else runs in this process, with three times
 // the bound
 func c15RetryMisses(ws *c15WaitStream) {
+	confirmed := 0 // misses that missed again when retried alone with three times the bound
 	for i := range ws.outs {
 		o := &ws.outs[i]
 		if o.r.Skipped || o.r.Hung || !o.r.Released || c15IsG151(o.wc, o.st, o.r) {
 			continue
 		}
+		if confirmed >= 6 {
+			// six misses are confirmed: the failure is systematic, not load. Every further retry would cost its bound and the
+			// release/kill delays again (a change that makes every wait miss kept this check busy for more than a quarter of
+			// an hour — seeded C15-s2); the remaining misses are not judged.
+			o.r.Skipped = true
+			continue
+		}
 		wc := o.wc
 		r := c15RunWait(wc, time.Duration(3*wc.BoundS*float64(time.Second)))
 		o.re = &r
+		if r.Released || r.Hung {
+			confirmed++
+		}
 	}
 	ws.leftovers += c15KillLeftovers()
 }
